@@ -26,6 +26,9 @@ structure Ctx where
   refPartial : Bool := false
   emitKindSyms : Bool := true
   emitSecSyms : Bool := true
+  /-- `RuntimeSettings::escape_path`; a parameter so that C07 can run the writer on the
+  declarative path expansion as well (proved equal). -/
+  esc : Opts → Str → Except ErrKind Str := escapePath
 
 def linkerSym (s : Str) (e : Expr) : Line := .assign s e false false true
 
@@ -90,11 +93,11 @@ def emitEntry (cx : Ctx) (seg : Segment) (sections : List Str) :
           let keep := keepFor file.keep k
           match file.kind with
           | .object =>
-            match liftPath (escapePath cx.o file.path) with
+            match liftPath (cx.esc cx.o file.path) with
             | .error e => .error e
             | .ok p => .ok [.input keep (display (pathPush base p)) none k seg.wildcardSections]
           | .archive =>
-            match liftPath (escapePath cx.o file.path) with
+            match liftPath (cx.esc cx.o file.path) with
             | .error e => .error e
             | .ok p => .ok [.input keep (display (pathPush base p)) (some file.subfile) k seg.wildcardSections]
           | .pad =>
@@ -103,7 +106,7 @@ def emitEntry (cx : Ctx) (seg : Segment) (sections : List Str) :
             .ok (if file.sect = k
                  then [linkerSym (cx.d.settings.style.linkerOffset file.linkerOffsetName) .dot] else [])
           | .group =>
-            match liftPath (escapePath cx.o file.dir) with
+            match liftPath (cx.esc cx.o file.dir) with
             | .error e => .error e
             | .ok dir =>
               concatMapE (fun child => emitEntry cx seg sections fuel child k (pathPush base dir) []) file.files
@@ -132,12 +135,12 @@ def fuelFor (seg : Segment) : Nat :=
 
 /-- `emit_section`. -/
 def emitSection (cx : Ctx) (seg : Segment) (sec : Str) (sections : List Str) : R (List Line) :=
-  match liftPath (escapePath cx.o cx.d.settings.basePath) with
+  match liftPath (cx.esc cx.o cx.d.settings.basePath) with
   | .error e => .error e
   | .ok base0 =>
     let baseR : R Str :=
       if cx.refPartial then .ok base0
-      else match liftPath (escapePath cx.o seg.dir) with
+      else match liftPath (cx.esc cx.o seg.dir) with
         | .error e => .error e
         | .ok d => .ok (pathPush base0 d)
     match baseR with
@@ -396,8 +399,9 @@ def topLevel (d : Document) (o : Opts) : List Line :=
           (fun a => .assertL a.check a.errorMessage))
 
 /-- `LinkerWriter::new` + `add_whole_document`. -/
-def generateNormal (d : Document) (o : Opts) (versionC : Bool) : R (List Line) :=
-  match addAllSegments { d := d, o := o } with
+def generateNormal (d : Document) (o : Opts) (versionC : Bool)
+    (esc : Opts → Str → Except ErrKind Str := escapePath) : R (List Line) :=
+  match addAllSegments { d := d, o := o, esc := esc } with
   | .error e => .error e
   | .ok ls => .ok (versionComment versionC ++ ls ++ topLevel d o)
 
@@ -409,29 +413,31 @@ structure PartialOut where
 def partialSegment (folder : Str) (seg : Segment) : Segment :=
   { seg with files := [FileInfo.newObject (pathPush folder (seg.name ++ c!".o"))] }
 
-def partialSegments (d : Document) (o : Opts) (versionC : Bool) (folder : Str) :
+def partialSegments (d : Document) (o : Opts) (versionC : Bool) (folder : Str)
+    (esc : Opts → Str → Except ErrKind Str := escapePath) :
     List Str → List Segment → R (List Line × List Str × List (Str × List Line))
   | emitted, [] => .ok ([], emitted, [])
   | emitted, seg :: rest =>
-    if !shouldEmit o seg.cond then partialSegments d o versionC folder emitted rest
+    if !shouldEmit o seg.cond then partialSegments d o versionC folder esc emitted rest
     else
-      match addSingleSegment { d := d, o := o, emitKindSyms := false, emitSecSyms := false } seg with
+      match addSingleSegment { d := d, o := o, emitKindSyms := false, emitSecSyms := false, esc := esc } seg with
       | .error e => .error e
       | .ok sub =>
-        match addSegment { d := d, o := o, refPartial := true } emitted (partialSegment folder seg) with
+        match addSegment { d := d, o := o, refPartial := true, esc := esc } emitted (partialSegment folder seg) with
         | .error e => .error e
         | .ok (a, em) =>
-          match partialSegments d o versionC folder em rest with
+          match partialSegments d o versionC folder esc em rest with
           | .error e => .error e
           | .ok (b, em', ps) => .ok (a ++ b, em', (seg.name, versionComment versionC ++ sub) :: ps)
 
 /-- `PartialLinkerWriter::new` + `add_whole_document`. -/
-def generatePartial (d : Document) (o : Opts) (versionC : Bool) : R PartialOut :=
+def generatePartial (d : Document) (o : Opts) (versionC : Bool)
+    (esc : Opts → Str → Except ErrKind Str := escapePath) : R PartialOut :=
   match d.settings.partialBuildSegmentsFolder with
   | none => .error (.err .missingRequiredField)
   | some folder =>
-    let cx : Ctx := { d := d, o := o, refPartial := true }
-    match partialSegments d o versionC folder [] d.segments with
+    let cx : Ctx := { d := d, o := o, refPartial := true, esc := esc }
+    match partialSegments d o versionC folder esc [] d.segments with
     | .error e => .error e
     | .ok (ls, emitted, ps) =>
       .ok { main := versionComment versionC ++ beginSections cx ++ ls ++ endSections cx emitted ++ topLevel d o,
